@@ -199,3 +199,64 @@ def register(reg):
                  raises=ERRS, serves=['C01', 'C05'],
                  note='string column: width 0 -> every subset carries the base field as it is (an all-ones base stays all ones = missing); '
                       'else an all-zero base is dropped and every subset carries its own full-width increment'))
+
+    # ------------------------------------------------------------------------------------------------------------
+    # the per-message driver (C01, C05, C06): one walk for compressed data, one walk per subset -- each from the initial
+    # register state and on that subset's own containers -- for uncompressed data
+    DALL, VALL, LALL = 'state.decoded_descriptors_all_subsets', 'state.decoded_values_all_subsets', 'state.bitmap_links_all_subsets'
+    WALK_REQ = ['state != None', 'registers_initial(state)', 'state.idx_value == 0',
+                '0 <= state.idx_subset', 'state.idx_subset < len(%s)' % DALL,
+                'state.decoded_descriptors is select(%s, state.idx_subset)' % DALL,
+                'state.decoded_values is select(%s, state.idx_subset)' % VALL,
+                'state.bitmap_links is select(%s, state.idx_subset)' % LALL]
+    WALK_MOD = ['state.*', 'elems_of(%s)' % DALL, 'elems_of(%s)' % VALL, 'elems_of(%s)' % LALL]
+    WALK_ENS = ['gh(state, "walks") == old(gh(state, "walks")) + 1',
+                '%s is old(%s)' % (DALL, DALL), '%s is old(%s)' % (VALL, VALL), '%s is old(%s)' % (LALL, LALL),
+                'same_list(%s)' % DALL, 'same_list(%s)' % VALL, 'same_list(%s)' % LALL,
+                'state.is_compressed == old(state.is_compressed)', 'state.n_subsets == old(state.n_subsets)',
+                'state.idx_subset == old(state.idx_subset)']
+    WALK_ERR = {'PyBufrKitError': None, 'AssertionError': None, 'NotImplementedError': None, 'ValueError': None, 'StopIteration': None,
+                'IndexError': None, 'TypeError': None, 'KeyError': None, 'AttributeError': None}
+    add(Contract('pybufrkit.coder.Coder.process_template', {'self': Ref('Coder'), 'state': S, 'bit_operator': Ref('BitOperator'), 'template': Ref('BufrTemplate')},
+                 trusted=True, requires=WALK_REQ, modifies=WALK_MOD, ensures=WALK_ENS, raises=WALK_ERR, serves=['C01', 'C02', 'C06'],
+                 note='interface of one template walk: must start from the initial registers on the containers of the current subset'))
+    add(Contract('pybufrkit.templatecompiler.process_compiled_template',
+                 {'coder': Ref('Coder'), 'state': S, 'bit_operator': Ref('BitOperator'), 'compiled_template': Ref('CompiledTemplate')},
+                 trusted=True, requires=WALK_REQ, modifies=WALK_MOD, ensures=WALK_ENS, raises=WALK_ERR, serves=['C01', 'C02', 'C06', 'C08'],
+                 note='interface of one walk of a compiled template (same obligations as the direct walk)'))
+    add(Contract('pybufrkit.bufr.BufrMessage.build_template', {'self': Ref('BufrMessage'), 'tables_root_dir': STR, 'normalize': INT},
+                 returns=TupleT(Ref('BufrTemplate'), Ref('BufrTableGroup')), trusted=True,
+                 modifies=['self.table_group_key'], ensures=['result[0] != None', 'result[1] != None'],
+                 raises={'PyBufrKitError': None, 'IOError': None, 'OSError': None, 'KeyError': None, 'ValueError': None},
+                 serves=['C01', 'C02', 'C06'], note='template construction is C14; here only: a template and its table group are returned'))
+    add(Contract('pybufrkit.templatecompiler.CompiledTemplateManager.get_or_compile',
+                 {'self': Ref('CompiledTemplateManager'), 'template': Ref('BufrTemplate'), 'table_group': Ref('BufrTableGroup')},
+                 returns=Ref('CompiledTemplate'), trusted=True, ensures=['result != None'], raises=WALK_ERR, serves=['C01', 'C02', 'C06', 'C08']))
+    add(Contract('pybufrkit.templatedata.TemplateData.__init__',
+                 {'self': Ref('TemplateData'), 'template': Ref('BufrTemplate'), 'is_compressed': BOOL,
+                  'decoded_descriptors_all_subsets': ListT(ListT(DESC)), 'decoded_values_all_subsets': ListT(ListT(VAL)),
+                  'bitmap_links_all_subsets': ListT(DictT(INT, INT))},
+                 trusted=True, modifies=['self.*'],
+                 ensures=['self.template is template', 'self.is_compressed == is_compressed',
+                          'self.decoded_descriptors_all_subsets is decoded_descriptors_all_subsets',
+                          'self.decoded_values_all_subsets is decoded_values_all_subsets',
+                          'self.bitmap_links_all_subsets is bitmap_links_all_subsets'],
+                 serves=['C01', 'C02', 'C06']))
+    MSG_C = 'oval(bufr_message._is_compressed.value)'
+    MSG_N = 'ival(bufr_message._n_subsets.value)'
+    add(Contract(M + 'Decoder.process_template_data', {'self': DEC, 'bufr_message': Ref('BufrMessage'), 'bit_reader': R},
+                 returns=Ref('TemplateData'),
+                 requires=['bufr_message != None', 'bufr_message._is_compressed != None', 'bufr_message._n_subsets != None',
+                           'is_bool(bufr_message._is_compressed.value)', 'is_int(bufr_message._n_subsets.value)', '%s >= 1' % MSG_N],
+                 modifies=['bufr_message.table_group_key'],
+                 loops={0: Loop(invariants=['state != None', 'state is entry(state)', 'gh(state, "walks") == entry(gh(state, "walks")) + _i0',
+                                            'not state.is_compressed', 'state.n_subsets == %s' % MSG_N,
+                                            'len(%s) == %s' % (DALL, MSG_N), 'len(%s) == %s' % (VALL, MSG_N), 'len(%s) == %s' % (LALL, MSG_N),
+                                            '%s is entry(%s)' % (DALL, DALL), '%s is entry(%s)' % (VALL, VALL), '%s is entry(%s)' % (LALL, LALL),
+                                            ],
+                                modifies=WALK_MOD)},
+                 ensures=['result != None', 'fresh(result)', 'result.is_compressed == %s' % MSG_C,
+                          'len(result.decoded_descriptors_all_subsets) == %s' % MSG_N, 'len(result.decoded_values_all_subsets) == %s' % MSG_N],
+                 raises=dict(WALK_ERR, IOError=None, OSError=None), serves=['C01', 'C05', 'C06'],
+                 note='the coder state is created with the message\'s own compression flag and subset count; compressed: ONE walk; '
+                      'uncompressed: per subset a context switch (fresh registers) and one walk'))
